@@ -149,8 +149,34 @@ func genTransparencyScenario(t *rapid.T) *Case {
 		}
 		return g.op(t)
 	}), minHistory(t, 25), 25).Draw(t, "ops")
-	c.Ops = append(c.Ops, ops...)
+	c.Ops = noOrderDependentTestaments(append(c.Ops, ops...))
 	return c
+}
+
+// noOrderDependentTestaments: when one request ends several sessions at once
+// (kill_by_authid, kill_by_authrole, kill_all) the router takes the victims in map
+// iteration order, so the order in which their testaments are published - and
+// retained by an event history - differs from run to run. Differential checks
+// keep either the testaments or the multi-session kills of a history.
+func noOrderDependentTestaments(ops []Op) []Op {
+	multi := false
+	for _, op := range ops {
+		if op.K == "meta" && (op.URI == "wamp.session.kill_by_authid" || op.URI == "wamp.session.kill_by_authrole" || op.URI == "wamp.session.kill_all") {
+			multi = true
+		}
+	}
+	if !multi {
+		return ops
+	}
+	out := make([]Op, 0, len(ops))
+	for _, op := range ops {
+		if op.K == "meta" && op.URI == "wamp.session.add_testament" {
+			genExcluded("differential:testament_with_multi_session_kill")
+			op = Op{K: "meta", S: op.S, URI: "wamp.session.count"}
+		}
+		out = append(out, op)
+	}
+	return out
 }
 
 // ---- rs / ws executor -------------------------------------------------------------
